@@ -1,1 +1,152 @@
-From DSW Require Import MiniPyC.
+(* CapacityKnotGenProofs.v -- approximate_capacity REGENERATED from the current source, run as a module with its external functions
+   (MiniPyC.call_in_ext: "__pow__" and "__log2__" are answered by ext), and C17's theorems restated for the source text.
+   Compiled on every run of the checks against the freshly generated CapacityGen.v (harness/regen.py, unit "capacity"). *)
+From Coq Require Import Lia ZifyBool PrimFloat.
+From DSW Require Import MiniPyC MiniPyCLemmas Py Kmer Graph Spec GraphSpec CapacitySpec Thresholds.
+From DSW Require Capacity.
+From DSW.Proofs Require Import CapacityProofs CapacityFloatProofs CapacityTermProofs.
+From DSWGen Require Import CapacityGen CapacityRepr CapacityGenProofs.
+Open Scope Z_scope.
+Open Scope string_scope.
+Local Open Scope Z_scope.
+Local Open Scope list_scope.
+Notation lookup := MiniPyC.lookup.
+
+(* running the regenerated module with the external environment ext *)
+Definition py8 (ext : string -> list val -> res val) (fuel : nat) (f : string) (args : list val) : res val :=
+  call_in_ext ext capacity_module fuel f args.
+(* the arguments of a call: accessor, tolerance_level, repeats, maximum_iteration, process, verbose, and the stream of arrays
+   numpy.random.random will return *)
+Definition cap_args (acc : list (list Z)) (tolz repeats : Z) (maxit : nat) (process verbose : bool) (stream : list (list float)) :=
+  [varr2 acc; VInt tolz; VInt repeats; VInt (Z.of_nat maxit); VBool process; VBool verbose; v_stream stream].
+(* the inputs the theorems are about: a NumPy accessor (non-empty, four columns, entries below the number of rows), at least one
+   repeat, and a stream that holds enough arrays of the right length when the start is random *)
+Definition cap_inputs (acc : list (list Z)) (repeats : Z) (stream : list (list float)) : Prop :=
+  acc <> [] /\ Forall (fun row => length row = 4%nat) acc /\ Forall (Forall (fun x => x < Z.of_nat (length acc))) acc
+  /\ 1 <= repeats /\ (repeats = 1 \/ (Z.to_nat repeats <= length stream)%nat)
+  /\ Forall (fun s => length s = length acc) (firstn (Z.to_nat repeats) stream).
+
+(* STATUS: all target statements proved with Qed, exactly as stated (no change):
+     py8_approximate_capacity, C17_returns_source, C17_arcless_source, C17_le_four_source, C17_regular_source.
+   approximate_capacity_gen (CapacityGenProofs.v) carries no hypothesis beyond externals_ok / cap_inputs / the fuel bound. *)
+
+(* capacity_module has one entry; its callee environment is call_in_ext ext [] fuel = ext, by computation (and eta) *)
+Lemma py8_unfold ext fuel args :
+  py8 ext fuel "approximate_capacity" args = run_fun ext fuel approximate_capacity_def args.
+Proof. unfold py8, capacity_module. cbn [call_in_ext String.eqb Ascii.eqb Bool.eqb]. reflexivity. Qed.
+
+Theorem py8_approximate_capacity : forall ext fuel acc tolz tol L repeats maxit process verbose stream,
+  externals_ok ext tolz tol L -> cap_inputs acc repeats stream -> (maxit + 3 <= fuel)%nat ->
+  py8 ext fuel "approximate_capacity" (cap_args acc tolz repeats maxit process verbose stream)
+  = match Capacity.approximate_capacity acc tol maxit (starts_of (length acc) repeats stream) with
+    | Some r => Ret (capacity_result tol L repeats process r)
+    | None => Fuel
+    end.
+Proof.
+  intros ext fuel acc tolz tol L repeats maxit process verbose stream Hext (Hne & Hrows & Hrange & Hrep & Hstream & Hlens) Hfuel.
+  rewrite py8_unfold. unfold cap_args.
+  exact (approximate_capacity_gen ext fuel acc tolz tol L repeats maxit process verbose stream
+           Hext Hne Hrows Hrange Hrep Hstream Hlens Hfuel).
+Qed.
+
+(* the source always returns: never stuck, never out of fuel, never an exception -- C17_terminates *)
+Theorem C17_returns_source : forall ext fuel acc tolz tol L repeats maxit process verbose stream,
+  externals_ok ext tolz tol L -> cap_inputs acc repeats stream -> (maxit + 3 <= fuel)%nat ->
+  exists r, Capacity.approximate_capacity acc tol maxit (starts_of (length acc) repeats stream) = Some r
+    /\ py8 ext fuel "approximate_capacity" (cap_args acc tolz repeats maxit process verbose stream)
+       = Ret (capacity_result tol L repeats process r).
+Proof.
+  intros ext fuel acc tolz tol L repeats maxit process verbose stream Hext Hin Hfuel.
+  destruct (approximate_capacity_terminates acc tol maxit (starts_of (length acc) repeats stream)) as [r Hr].
+  exists r. split; [exact Hr|].
+  rewrite (py8_approximate_capacity ext fuel acc tolz tol L repeats maxit process verbose stream Hext Hin Hfuel), Hr.
+  reflexivity.
+Qed.
+
+(* an arc-less graph gives 0.0 -- C17_arcless *)
+Theorem C17_arcless_source : forall ext fuel acc tolz tol L repeats maxit verbose stream,
+  externals_ok ext tolz tol L -> cap_inputs acc repeats stream -> (maxit + 3 <= fuel)%nat ->
+  Capacity.all_minus_one acc = true ->
+  py8 ext fuel "approximate_capacity" (cap_args acc tolz repeats maxit false verbose stream) = Ret (VFloat 0%float).
+Proof.
+  intros ext fuel acc tolz tol L repeats maxit verbose stream Hext Hin Hfuel Hall.
+  rewrite (py8_approximate_capacity ext fuel acc tolz tol L repeats maxit false verbose stream Hext Hin Hfuel).
+  rewrite (capacity_arcless acc tol maxit _ Hall). reflexivity.
+Qed.
+
+Lemma unit_float_one : unit_float 1%float.
+Proof. split; reflexivity. Qed.
+
+Lemma ones_unit n : Forall unit_float (Capacity.ones n).
+Proof. unfold Capacity.ones. induction n as [|n IH]; cbn [repeat]; constructor; [exact unit_float_one|exact IH]. Qed.
+
+Lemma Forall_firstn' {A} (P : A -> Prop) : forall n l, Forall P l -> Forall P (firstn n l).
+Proof.
+  induction n as [|n IH]; intros l H; [constructor|]. destruct H as [|x l Hx Hl]; cbn [firstn]; constructor; auto.
+Qed.
+
+Lemma starts_of_unit n repeats stream : Forall (Forall unit_float) stream -> Forall (Forall unit_float) (starts_of n repeats stream).
+Proof.
+  intro H. unfold starts_of. destruct (repeats =? 1).
+  - constructor; [apply ones_unit|constructor].
+  - apply Forall_firstn'. exact H.
+Qed.
+
+Lemma starts_of_length acc repeats stream : cap_inputs acc repeats stream ->
+  (1 <= length (starts_of (length acc) repeats stream))%nat.
+Proof.
+  intros (_ & _ & _ & Hrep & Hstream & _). unfold starts_of. destruct (repeats =? 1) eqn:E; [cbn [length]; lia|].
+  destruct Hstream as [H1|Hk]; [lia|]. rewrite firstn_length_le by exact Hk. lia.
+Qed.
+
+(* what is reported is the median of lg of eigenvalue estimates that are all <= 4: with log2 for L the capacity is at most 2 --
+   C17_le_four; the random start vectors lie in [0, 1] *)
+Theorem C17_le_four_source : forall ext fuel acc tolz tol L repeats maxit verbose stream,
+  externals_ok ext tolz tol L -> cap_inputs acc repeats stream -> (maxit + 3 <= fuel)%nat ->
+  Forall (Forall unit_float) stream -> Capacity.all_minus_one acc = false ->
+  exists res, py8 ext fuel "approximate_capacity" (cap_args acc tolz repeats maxit false verbose stream)
+              = Ret (VFloat (fmedianf (map (lg tol L) res)))
+    /\ res <> [] /\ Forall (fun lam => PrimFloat.leb lam 4 = true) res.
+Proof.
+  intros ext fuel acc tolz tol L repeats maxit verbose stream Hext Hin Hfuel Hunit Hall.
+  set (starts := starts_of (length acc) repeats stream).
+  destruct (approximate_capacity_terminates acc tol maxit starts) as [r Hr].
+  assert (Hsome : exists res recs, r = Some (res, recs)).
+  { unfold Capacity.approximate_capacity in Hr. rewrite Hall in Hr.
+    destruct (Capacity.repeats_loop acc tol maxit starts) as [[res recs]|]; [|discriminate].
+    injection Hr as <-. exists res, recs. reflexivity. }
+  destruct Hsome as (res & recs & ->).
+  exists res. split; [|split].
+  - rewrite (py8_approximate_capacity ext fuel acc tolz tol L repeats maxit false verbose stream Hext Hin Hfuel).
+    fold starts. rewrite Hr. reflexivity.
+  - destruct (approximate_capacity_results acc tol maxit starts res recs Hr) as [_ [Hlo _]].
+    pose proof (starts_of_length acc repeats stream Hin) as Hlen. fold starts in Hlen.
+    intro E. subst res. cbn [length] in Hlo. lia.
+  - destruct Hin as (_ & Hrows & _).
+    apply (capacity_le_four acc tol maxit starts res recs); [| apply starts_of_unit; exact Hunit | exact Hr].
+    eapply Forall_impl; [|exact Hrows]. intros row Hrow. cbv beta in Hrow. lia.
+Qed.
+
+Lemma fmedianf_single x : fmedianf [x] = x.
+Proof. reflexivity. Qed.
+
+(* single start on a graph in which every live vertex has exactly d live successors: the estimate is exactly d -- C17_regular *)
+Theorem C17_regular_source : forall ext fuel acc d tolz tol L maxit verbose stream,
+  externals_ok ext tolz tol L -> cap_inputs acc 1 stream -> (maxit + 3 <= fuel)%nat ->
+  shaped acc -> 1 <= d <= 4 -> (1 <= maxit)%nat -> (0 <? tol)%float = true ->
+  (exists v, in_range acc v /\ live_row acc v = true) ->
+  (forall v, in_range acc v -> live_row acc v = true -> live_succ_count acc v = d) ->
+  py8 ext fuel "approximate_capacity" (cap_args acc tolz 1 maxit false verbose stream) = Ret (VFloat (lg tol L (fz d))).
+Proof.
+  intros ext fuel acc d tolz tol L maxit verbose stream Hext Hin Hfuel Hsh Hd Hmax Htol Hlive Hreg.
+  rewrite (py8_approximate_capacity ext fuel acc tolz tol L 1 maxit false verbose stream Hext Hin Hfuel).
+  change (starts_of (length acc) 1 stream) with [Capacity.ones (length acc)].
+  rewrite (capacity_regular acc d tol maxit Hsh Hd Hmax Htol Hlive Hreg).
+  unfold capacity_result. cbn [map]. rewrite fmedianf_single. reflexivity.
+Qed.
+
+Print Assumptions py8_approximate_capacity.
+Print Assumptions C17_returns_source.
+Print Assumptions C17_arcless_source.
+Print Assumptions C17_le_four_source.
+Print Assumptions C17_regular_source.
